@@ -453,7 +453,11 @@ impl<'a> Gen<'a> {
                     if self.rng.chance(1, 4) {
                         n.writes.push(WriteOp::BulkRemove { tag, n: cnt });
                     } else {
-                        n.writes.push(WriteOp::Bulk { tag, n: cnt });
+                        // sometimes the same keys twice in one call, with other values the second time
+                        if self.rng.chance(1, 4) {
+                            n.writes.push(WriteOp::Bulk { tag, n: cnt, salt: (nid % 200) as u8 });
+                        }
+                        n.writes.push(WriteOp::Bulk { tag, n: cnt, salt: (nid % 200) as u8 + 1 });
                     }
                 } else if self.rng.chance(1, 8) {
                     let k = self.recent_or_key();
@@ -500,6 +504,15 @@ impl<'a> Gen<'a> {
         n.data = match self.rng.below(5) {
             0 | 1 => None,
             2 => Some(vec![]),
+            3 if self.rng.chance(1, 10) => {
+                // data that looks like an execute-response envelope itself (field 1, length-delimited)
+                Some(match self.rng.below(4) {
+                    0 => vec![0x0a, 0x03, b'a', b'b', b'c'],
+                    1 => vec![0x0a, 0x00],
+                    2 => vec![0x0a, 0x05, 0x0a, 0x03, b'x', b'y', b'z'],
+                    _ => vec![0x0a, 0x04, b'a', b'b', b'c'],
+                })
+            }
             3 if self.rng.chance(1, 6) => {
                 // lengths around the one-byte / two-byte boundaries of length-prefixed encodings
                 let len = *self.rng.pick(&[1usize, 126, 127, 128, 129, 255, 256, 300, 16383, 16384, 20000]);
@@ -533,12 +546,18 @@ impl<'a> Gen<'a> {
     fn msg(&mut self, depth: u32) -> MsgSpec {
         let w = [self.p.s_exec, self.p.s_inst, self.p.s_migrate, self.p.s_admin, self.p.s_bank, self.p.s_module, self.p.s_staking];
         match self.rng.weighted(&w) {
-            0 => MsgSpec::Exec { target: self.target_contract(), node: Box::new(self.node(depth + 1)), funds: self.funds() },
+            0 => {
+                let mut node = self.node(depth + 1);
+                node.empty_msg = self.rng.chance(1, 60);
+                MsgSpec::Exec { target: self.target_contract(), node: Box::new(node), funds: self.funds() }
+            }
             1 => self.inst(depth),
             2 => {
                 // self-migration (a contract that is its own admin) is a rare but legal shape
                 let target = if depth > 0 && self.rng.chance(2, 5) { Target::SelfAddr } else { self.target_contract() };
-                MsgSpec::Migrate { target, code: self.rng.below(self.n_codes as u64 + 1) as u32, node: Box::new(self.node(depth + 1)) }
+                let mut node = self.node(depth + 1);
+                node.empty_msg = self.rng.chance(1, 25);
+                MsgSpec::Migrate { target, code: self.rng.below(self.n_codes as u64 + 1) as u32, node: Box::new(node) }
             }
             3 => {
                 if self.rng.chance(1, 3) {
@@ -624,7 +643,14 @@ impl<'a> Gen<'a> {
             _ => format!("p{}", self.uniq()).into_bytes(),
         };
         let want_reply = if reply_on == 0 { self.rng.chance(1, 10) } else { self.pc(self.p.reply) };
-        let reply = if want_reply && self.nodes_left > 0 { Some(Box::new(self.node(depth + 1))) } else { None };
+        let reply = if want_reply && self.nodes_left > 0 {
+            let mut r = self.node(depth + 1);
+            // some reply handlers hand the sub-message's data on unchanged
+            r.echo_reply_data = self.rng.chance(1, 6);
+            Some(Box::new(r))
+        } else {
+            None
+        };
         Sub { msg, id, reply_on, payload, reply }
     }
 
@@ -666,6 +692,17 @@ impl<'a> Gen<'a> {
                 let msg = self.top_msg();
                 let sweep = self.pc(self.p.sweep);
                 Op::Exec { sender, msg, sweep }
+            }
+            1 if self.p.s_bank >= 4 && self.rng.chance(1, 25) => {
+                // a long batch of small sends in which one recipient comes up again and again: one transaction
+                // with well over a hundred writes, many of them to the same keys
+                let again = Target::Ghost(self.rng.below(24) as u32);
+                let n = 34 + self.rng.below(12) as u32;
+                let rep = 5 + self.rng.below(8) as u32;
+                let msgs = (0..n)
+                    .map(|i| MsgSpec::Send { to: if i < rep || self.rng.chance(1, 5) { again.clone() } else { Target::Ghost(i) }, coins: vec![CoinSpec { denom: 0, amt: Amt::Abs(1 + (i % 3) as u64) }] })
+                    .collect();
+                Op::Multi { sender, msgs }
             }
             1 if self.p.s_bank >= 20 && self.rng.chance(1, 4) => {
                 // many never-seen recipients at once: the bank comes to know a lot of accounts
